@@ -570,6 +570,10 @@ def check_weight(case, ctx):
     if v['xkind'] == 'int' and min(a, b) < 0:
         v['xkind'] = 'f64'           # the integers of [-1, 1] include the end points, where a negative exponent has a pole
     edge = case['edge'] and min(a, b) >= 0
+    if any(0 < e < 1e-30 for e in (a, b)):
+        # 0**e jumps from 1 (e = 0) to 0 (e > 0): at an end point an exponent below the smallest float32 is 0 for a single-precision evaluation and
+        # positive for a double-precision one; both answers are right for their precision, so the end points are left out (found by a background sweep)
+        edge = False
     x, base = make_points(case['seed'], shape, -1.0, 1.0, edge, kind=v['xkind'])
     if min(a, b) < 0:      # float32 rounding never lands on a pole
         x = float(np.clip(x, -1 + 2.0 ** -20, 1 - 2.0 ** -20)) if isinstance(x, float) else np.clip(x, -1 + 2.0 ** -20, 1 - 2.0 ** -20)
